@@ -41,3 +41,24 @@ def burst(ctx, instances, threads, calls, kind=None, what=''):
     if dup:
         k = sorted(dup)[0]
         vf.violation(ctx, f'{k} value {dup[k][0][:24]}.. was produced twice (values #{dup[k][1]} and #{dup[k][2]}) over instances created by different threads / threads sharing an instance', {'mode': mode, 'config': 'default', 'kind': k, 'value': dup[k][0]})
+
+
+def volume(ctx, threads, calls):
+    """hundreds of thousands of encapsulations over a few instances and threads, compared inside the harness"""
+    if getattr(ctx, 'conc_dead', False): return
+    import subprocess
+    try: r = subprocess.run([vf.harness_bin('concd'), 'volume', str(threads), str(calls)], capture_output=True, text=True, timeout=600)
+    except subprocess.TimeoutExpired:
+        ctx.ob('freshness', f'concd volume {threads} {calls} returns', False, 'did not finish within 600 s'); ctx.conc_dead = True
+        vf.violation(ctx, 'the volume run of encapsulations did not finish within 600 s', {'mode': f'volume {threads} {calls}', 'config': 'default'}); return
+    lines = r.stdout.split('\n'); tot = [l for l in lines if l.startswith('VOLUME ')]
+    dup = [l for l in lines if l.startswith('DUPV ')]; fails = [l for l in lines if l.startswith('FAIL ')]
+    n = int(tot[0].split(' ')[1]) if tot else 0
+    ctx.evaluations += 3 * n; ctx.traces += n
+    ctx.cov.setdefault('bursts', []).append({'mode': f'volume {threads} {calls}', 'values': {'secret': n, 'tag': n, 'trap': n}})
+    ctx.ob('freshness', f'concd volume {threads} {calls}: {n} encapsulations by {threads} threads over 8 instances under one public key: all secrets, all tags, all first traps pairwise distinct', bool(tot) and not dup and not fails and n == threads * calls, ' '.join((dup + fails)[:2])[:400])
+    if dup:
+        f = dup[0].split(' ')
+        vf.violation(ctx, f'{f[1]} value {f[2][:24]}.. was produced twice (calls {f[4]} and {f[6]}) in a run of {n} encapsulations', {'mode': f'volume {threads} {calls}', 'config': 'default', 'kind': f[1], 'value': f[2], 'output': '\n'.join(dup[:5])})
+    elif fails or not tot or n != threads * calls:
+        vf.violation(ctx, 'volume run of encapsulations: ' + (fails[0] if fails else 'incomplete output'), {'mode': f'volume {threads} {calls}', 'config': 'default', 'output': '\n'.join(fails[:5])})
